@@ -365,6 +365,16 @@ pub fn engine_batches(prop: &'static str, tier: &str, seed: u64) -> Vec<Batch<'s
         let n3 = n_benign;
         out.push(Batch { name: "C03-hard-fault(one hard device error, then the relaxed structural check)".into(), runs: n3, f: Box::new(move |i| engine_outcome(crate::rng::run_seed(seed, 3, i), &f3)) });
     }
+    if prop == "C05" {
+        // a transient storage error inside a mutating call, the caller tries again: "stats() equals the table" needs no
+        // model and stays in force for the rest of the run
+        let mut f6 = fl.clone();
+        f6.retry_fault_pct = 25;
+        f6.retry_fault_max_k = 40;
+        f6.oracles = Oracles { free_count: true, fault_resilient: true, ..Default::default() };
+        let n6 = n_benign / 2;
+        out.push(Batch { name: "C05-transient-storage-error-then-retry(stats() against the table after every later call)".into(), runs: n6, f: Box::new(move |i| engine_outcome(crate::rng::run_seed(seed, 6, i), &f6)) });
+    }
     if prop == "C12" {
         // a transient storage error inside a mutating call, the caller tries again: the status-byte rules need no model
         // and stay in force for the rest of the run
